@@ -221,7 +221,7 @@ pub fn strategy() -> BoxedStrategy<Case> {
     let prob = prop_oneof![3 => prob_spec(5, 0.5, 8.0), 1 => stiffish_spec(4)];
     (
         prob,
-        span_mid(),
+        prop_oneof![12 => span_mid().boxed(), 1 => span_tiny().boxed()],
         any_method(),
         tols(5, 3.0, 9.0),
         (proptest::bool::weighted(0.85), proptest::option::weighted(0.3, places(10)), proptest::option::weighted(0.2, log10(-2.0, 0.0)), proptest::option::weighted(0.2, log10(-3.0, -0.5))),
